@@ -420,5 +420,18 @@ def _reader(case, ctx, rng):
         ctx.check("c20.reader-columns", list(df.columns) == cols[1:], "read_ec_benchmark_dataset column names", got=list(df.columns), want=cols[1:])
         ctx.check("c20.reader-index", len(df.index) == n and all(pd.Timestamp(x) == y for x, y in zip(df.index[:50], times[:50])) and pd.Timestamp(df.index[-1]) == times[-1], "read_ec_benchmark_dataset index is not the time stamp of each row", first=str(df.index[0]) if n else None)
         ctx.sample = {"kind": "reader", "rows": n, "columns": cols}
+        # history: the caller edits the returned frame in place, the file is rewritten at the SAME path, and it is read again
+        if n >= 2:
+            df.iloc[:, 0] *= 2.0
+            again = read_ec_benchmark_dataset(path)
+            ctx.check("c20.reader-rows", again.shape == (n, 2) and np.array_equal(again.values[:, 0], a), "read_ec_benchmark_dataset: a second read returns the frame the caller edited, not the file's rows", rows=n)
+            m = max(1, n // 3)
+            a2 = np.round(rng.weibull(1.5, m) * 5 + 1, 2)
+            with open(path, "w") as f:
+                f.write("; ".join(cols) + "\n")
+                for t, u in zip(times[:m], a2):
+                    f.write(f"{t.strftime('%Y-%m-%d-%H')}; {u:.2f}; {u + 1:.2f}\n")
+            third = read_ec_benchmark_dataset(path)
+            ctx.check("c20.reader-rows", third.shape == (m, 2) and np.array_equal(third.values[:, 0], a2), "read_ec_benchmark_dataset: after the file was rewritten at the same path the old rows are returned", rows_now=m, rows_returned=int(third.shape[0]))
     finally:
         shutil.rmtree(tmp, ignore_errors=True)
